@@ -145,6 +145,9 @@ func (p *pointG1) UnmarshalBinary(buf []byte) error {
 
 	p.g.x.Unmarshal(buf)
 	p.g.y.Unmarshal(buf[n:])
+	if !p.g.x.isCanonical() || !p.g.y.isCanonical() {
+		return errors.New("bn256.G1: coordinate exceeds modulus")
+	}
 	montEncode(&p.g.x, &p.g.x)
 	montEncode(&p.g.y, &p.g.y)
 
@@ -332,6 +335,10 @@ func (p *pointG2) UnmarshalBinary(buf []byte) error {
 	p.g.x.y.Unmarshal(buf[1+1*n:])
 	p.g.y.x.Unmarshal(buf[1+2*n:])
 	p.g.y.y.Unmarshal(buf[1+3*n:])
+	if !p.g.x.x.isCanonical() || !p.g.x.y.isCanonical() ||
+		!p.g.y.x.isCanonical() || !p.g.y.y.isCanonical() {
+		return errors.New("bn256.G2: coordinate exceeds modulus")
+	}
 	montEncode(&p.g.x.x, &p.g.x.x)
 	montEncode(&p.g.x.y, &p.g.x.y)
 	montEncode(&p.g.y.x, &p.g.y.x)
@@ -527,6 +534,14 @@ func (p *pointGT) UnmarshalBinary(buf []byte) error {
 	p.g.y.y.y.Unmarshal(buf[9*n:])
 	p.g.y.z.x.Unmarshal(buf[10*n:])
 	p.g.y.z.y.Unmarshal(buf[11*n:])
+	for _, c := range []*gfP{
+		&p.g.x.x.x, &p.g.x.x.y, &p.g.x.y.x, &p.g.x.y.y, &p.g.x.z.x, &p.g.x.z.y,
+		&p.g.y.x.x, &p.g.y.x.y, &p.g.y.y.x, &p.g.y.y.y, &p.g.y.z.x, &p.g.y.z.y,
+	} {
+		if !c.isCanonical() {
+			return errors.New("bn256.GT: coordinate exceeds modulus")
+		}
+	}
 	montEncode(&p.g.x.x.x, &p.g.x.x.x)
 	montEncode(&p.g.x.x.y, &p.g.x.x.y)
 	montEncode(&p.g.x.y.x, &p.g.x.y.x)
